@@ -287,6 +287,8 @@ class Ctx:
     def n(self, quick, thorough):
         """case count for the tier; in the thorough tier generated-stream counts (>= 100) are multiplied by
         VERIF_THOROUGH_SCALE (default 5), grid parameters (small numbers) are left alone"""
+        if getattr(self, "boost", False) and not self.thorough:
+            return max(quick, thorough)                  # directed search after a broken proof obligation
         if not self.thorough:
             return quick
         if thorough >= 100:
